@@ -193,6 +193,10 @@ class Engine(Interp):
         if isinstance(a, (Opaque, str)) or isinstance(b, (Opaque, str)):
             if isinstance(a, str) and isinstance(b, str):
                 return self.cmp_num(t, a, b)
+            other = b if isinstance(a, str) else a
+            if isinstance(a, str) != isinstance(b, str) and isinstance(other, (int, float, z3.ExprRef)) and not isinstance(other, bool):
+                self.raises.append((pc, TypeError))          # '<' between str and a number
+                return False
             raise Unsupported("ordering on opaque string")
         if a is None or b is None:
             self.raises.append((pc, TypeError))
